@@ -22,12 +22,14 @@ def _model_text(s):
         return {}
 
 
-def _check_z3(smt2, timeout_ms, seed=0, want_model=True):
+def _check_z3(smt2, timeout_ms, seed=0, want_model=True, params=None):
     t0 = time.time()
     s = z3.Solver()
     s.set("timeout", timeout_ms)
     if seed:
         s.set("random_seed", seed)
+    for k, v in (params or {}).items():
+        s.set(k, v)
     s.from_string(smt2)
     r = s.check()
     model = None
@@ -67,6 +69,14 @@ def discharge_one(job):
         first = min(full, opts.get("z3_first_ms", 4000))
         r, dt, model, reason = _check_z3(smt2, first)
         res.update(result=r, ms=int(dt * 1000), backend="z3-" + z3.get_version_string(), model=model, reason=reason)
+        if r == "unknown" and "forall" in smt2:
+            # pure E-matching (no model-based instantiation): quantified obligations whose instances are all triggered
+            # by ground terms are decided in milliseconds this way where MBQI wanders off; only `unsat` is taken
+            r1, dt1, _, _ = _check_z3(smt2, min(full, 10000), want_model=False, params={"smt.mbqi": False})
+            res["ms"] += int(dt1 * 1000)
+            if r1 == "unsat":
+                res.update(result=r1, backend="z3-" + z3.get_version_string() + "(ematching)", model=None, reason="")
+                r = r1
         if r == "unknown" and opts.get("cvc5", True) and "lambda" not in smt2:
             r2, dt2 = _check_cvc5(smt2, opts.get("cvc5_s", CVC5_TIMEOUT_S))
             res["ms"] += int(dt2 * 1000)
